@@ -734,6 +734,27 @@ def special_worlds(st: infra.Stats):
             exp = {"T": "t3", "List": ["t3"], "Optional": "t3"}[wname]
             if a != ("ok", exp):
                 viol("conversion_locality", f"deserialize({wname}[str], {wd(3)!r}, conversion=int->str) = {a}, expected {exp!r}", object="leaf", direction="deserialize")
+        # an Annotated conversion given for the other direction only changes nothing in this one: the dynamic conversion
+        # still reaches the leaf
+        from typing import Annotated as _Ann
+
+        from apischema.metadata import conversion as _conv_md
+
+        for wname, wt, wd in wraps[:3]:
+            st.case("conversion_locality", "other_direction_annotation", wname)
+            plain = wt(str)
+            ann_d = _Ann[plain, _conv_md(serialization=m.tag_to_int)]
+            a, b = run(lambda: deserialize(ann_d, wd(3), conversion=m.tag_from_int)), run(lambda: deserialize(plain, wd(3), conversion=m.tag_from_int))
+            if a != b:
+                viol("conversion_locality", f"deserialize(Annotated[{wname}[str], conversion(serialization=...)], {wd(3)!r}, conversion=int->str) = {a} but without the annotation {b}", object="other_direction_annotation", direction="deserialize")
+            ann_s = _Ann[plain, _conv_md(deserialization=m.tag_from_int)]
+            a, b = run(lambda: serialize(ann_s, wd("abc"), conversion=m.tag_to_int)), run(lambda: serialize(plain, wd("abc"), conversion=m.tag_to_int))
+            if a != b:
+                viol("conversion_locality", f"serialize(Annotated[{wname}[str], conversion(deserialization=...)], {wd('abc')!r}, conversion=str->int) = {a} but without the annotation {b}", object="other_direction_annotation", direction="serialize")
+            for fn, ann, conv in ((deserialization_schema, ann_d, m.tag_from_int), (serialization_schema, ann_s, m.tag_to_int)):
+                a, b = run(lambda: fn(ann, conversion=conv)), run(lambda: fn(plain, conversion=conv))
+                if a != b:
+                    viol("conversion_locality_schema", f"{fn.__name__}(Annotated[{wname}[str], <other direction>], conversion=...) = {a} != {b}", object="other_direction_annotation")
         sys.modules.pop(m.__name__, None)
         apischema.cache.reset()
     _guard('locality of dynamic conversions', _sec_9)
